@@ -864,6 +864,30 @@ func findInlineSites(pkgs []*packages.Package) []*inlineSite {
 			}
 		}
 	}
+	// census functions that are gone: a new function of the same package and
+	// signature may be one of them in another guise (a method that became a plain
+	// function); it is left standing so that the rules can find it by its role
+	presentNames := map[string]bool{}
+	for _, pk := range pkgs {
+		for _, obj := range pk.TypesInfo.Defs {
+			if fn, ok := obj.(*types.Func); ok {
+				presentNames[funcFullName(fn)] = true
+			}
+		}
+	}
+	pkgPart := func(full string) string {
+		slash := strings.LastIndex(full, "/")
+		if dot := strings.Index(full[slash+1:], "."); dot >= 0 {
+			return full[:slash+1+dot]
+		}
+		return full
+	}
+	missingSig := map[string]bool{}
+	for name := range census {
+		if !presentNames[name] && censusSig[name] != "" {
+			missingSig[pkgPart(name)+"|"+censusSig[name]] = true
+		}
+	}
 	var out []*inlineSite
 	for _, pk := range pkgs {
 		for _, file := range pk.Syntax {
@@ -877,6 +901,9 @@ func findInlineSites(pkgs []*packages.Package) []*inlineSite {
 					continue
 				}
 				if census[funcFullName(fn)] {
+					continue
+				}
+				if missingSig[pkgPart(funcFullName(fn))+"|"+funcSigString(fn)] {
 					continue
 				}
 				sig := fn.Type().(*types.Signature)
